@@ -136,6 +136,11 @@ func (d *driver) do(k int, p *path.Path) int {
 				return
 			}
 			txt = wire.Bytes(q.String())
+			// parsing the printed text must give a path that prints the same text,
+			// whatever was parsed before (recorded, judged by the trace specification)
+			if q.String() != p.String() {
+				o.Bad = "reparse-prints-another-text"
+			}
 		}()
 	case "realias":
 		// A second handle on the same parsed AST is made to hold another path
